@@ -269,6 +269,29 @@ def check_light(case):
 CHECKS["light"] = check_light
 
 
+def check_pair_light(case):
+    """One pattern of 5-7 points and one independent target of 8-12 points: listing, count and
+    the boolean entry points against the reference.  Cheap, so tens of thousands of pairs are
+    drawn at sizes no sweep reaches (a search shortcut needs a long pattern and spare room)."""
+    p, t = tuple(case[0]), tuple(case[1])
+    P, T = Perm(p), Perm(t)
+    want = ref.occ(p, t)
+    got = list(P.occurrences_in(T))
+    if got != want:
+        return BAD("pair_light_occurrences_in", {"pattern": list(p), "target": list(t), "got": got[:5], "want": want[:5]})
+    has = bool(want)
+    if T.contains(P) != has or T.avoids(P) == has or (P in T) != has or T.count_occurrences_of(P) != len(want):
+        return BAD("pair_light_entry_points", {"pattern": list(p), "target": list(t), "occurrences": len(want)})
+    return OK(True, "pair_light_contained" if has else "pair_light_avoided")
+
+
+CHECKS["pair_light"] = check_pair_light
+
+
+def pair_light_cases():
+    return st.tuples(gen.perms(5, 7), gen.perms(8, 12)).map(lambda pt: [list(pt[0]), list(pt[1])])
+
+
 def shard_light(acc, shard, nshards, n):
     for i, t in enumerate(ref.perms(n)):
         if i % nshards == shard:
@@ -336,6 +359,7 @@ def shard_generated(acc, shard, nshards, n_pair, n_col, n_multi, n_hist):
     engine.hyp_run(acc, "pair", check_pair, gen.pattern_target(6, 12), n_pair, shard)
     # long targets with short patterns: sizes no exhaustive sweep reaches, oracle still cheap
     engine.hyp_run(acc, "pair", check_pair, gen.planted(4, 24), max(10, n_pair // 5), shard)
+    engine.hyp_run(acc, "pair_light", check_pair_light, pair_light_cases(), 30 * n_pair if n_pair < 1000 else 10 * n_pair, shard)
     engine.hyp_run(acc, "coloured", check_coloured, coloured_cases(), n_col, shard)
     engine.hyp_run(acc, "multi", check_multi, multi_cases(), n_multi, shard)
     engine.hyp_run(acc, "history", check_history, history_cases(), n_hist, shard)
